@@ -18,7 +18,7 @@ ENV.update(GOFLAGS='-mod=mod', GOPROXY='off')
 
 
 def sh(cmd, cwd=None, env=None):
-    p = subprocess.run(cmd, shell=True, cwd=cwd, env=env or ENV, capture_output=True, text=True)
+    p = subprocess.run(cmd, shell=True, cwd=cwd, env=env or ENV, capture_output=True, text=True, errors='replace')
     return p.returncode, p.stdout + p.stderr
 
 
